@@ -116,6 +116,9 @@ class Check:
         cov.setdefault("distinct_nontrivial", 0)
         cov.setdefault("rule", "")
         cov.setdefault("samples", [])
+        if not cov["samples"]:
+            # a run that ends in a violation may have no passing sample: the witnesses are what it observed
+            cov["samples"] = [{"violation": k, "what": w[:300]} for k, w, _ in self.violations[:3]] or [{"note": "no sample recorded"}]
         cov["known_findings_reproduced"] = sorted(self.known_hits)
         if self.notes:
             cov["notes"] = self.notes[:50]
